@@ -1,3 +1,5 @@
+//go:build verif
+
 // Package vsync replaces package sync for the files put under the controlled scheduler. Every operation
 // is a scheduling point; blocking operations are disabled until they can proceed. Injected at build time
 // as github.com/miekg/dns/verifshim/vsync.
